@@ -935,8 +935,13 @@ func main() {
 	tier := flag.String("tier", "quick", "")
 	corpus := flag.String("corpus", "", "json file of fixed histories run first")
 	replay := flag.String("replay", "", "json file with histories: run and print what the implementation answers")
+	probe := flag.Bool("probe-parallel", false, "child mode: truly parallel Scatter calls on one scatterer (may crash)")
 	flag.Parse()
 	log.ReplaceGlobals(zap.NewNop(), nil)
+	if *probe {
+		probeParallel()
+		return
+	}
 	rand.Seed(int64(*seed)) // PD's own uses of math/rand (RandomPick, Rand*Region); Go map order stays free: the models are set-valued
 
 	R := res.New("C11", *seed, *tier)
@@ -1027,6 +1032,7 @@ func main() {
 	}
 	if *replay == "" {
 		runReelections(R, *seed, 6)
+		runParallelProbe(R, *seed)
 	}
 	if err := cf.Flush(); err != nil {
 		panic(err)
